@@ -118,7 +118,7 @@ func ReadFlatCoords1(r io.Reader, byteOrder binary.ByteOrder, stride int) ([]flo
 	if err != nil {
 		return nil, err
 	}
-	if limit := MaxGeometryElements[1]; limit >= 0 && int(n) > limit {
+	if limit := MaxGeometryElements[1]; limit >= 0 && uint64(n) > uint64(limit) {
 		return nil, ErrGeometryTooLarge{Level: 1, N: int(n), Limit: limit}
 	}
 	flatCoords := make([]float64, int(n)*stride)
@@ -134,7 +134,7 @@ func ReadFlatCoords2(r io.Reader, byteOrder binary.ByteOrder, stride int) ([]flo
 	if err != nil {
 		return nil, nil, err
 	}
-	if limit := MaxGeometryElements[2]; limit >= 0 && int(n) > limit {
+	if limit := MaxGeometryElements[2]; limit >= 0 && uint64(n) > uint64(limit) {
 		return nil, nil, ErrGeometryTooLarge{Level: 2, N: int(n), Limit: limit}
 	}
 	var flatCoordss []float64
